@@ -12,7 +12,7 @@ import time
 
 VERIF = os.path.dirname(os.path.dirname(os.path.abspath(__file__)))
 REPO = os.environ.get('VERIF_REPO', '/repo')
-KWORK = os.path.join(VERIF, 'work', 'k')
+KWORK = os.path.join(os.environ.get('VERIF_WORK') or os.path.join(VERIF, 'work'), 'k')
 WS = os.path.join(KWORK, 'ws')
 KDIR = os.path.join(VERIF, 'contracts', 'k')
 
@@ -424,7 +424,7 @@ def playback(unit, f, pid):
     if not test_src:
         m = re.search(r'(#\[test\]\s*fn kani_concrete_playback_\w+\(\) \{.*?\n\})', r['out'], re.S)
         test_src = m.group(1) if m else None
-    path = os.path.join(VERIF, 'replay', '%s-%s-%s.json' % (pid, unit['name'], h))
+    path = os.path.join(os.environ.get('VERIF_REPLAY_DIR') or os.path.join(VERIF, 'replay'), '%s-%s-%s.json' % (pid, unit['name'], h))
     rec = {'property': pid, 'unit': unit['name'], 'engine': 'kani', 'harness': f.get('full_name', h),
            'failed_obligation': f['key'], 'diagnostic': f['diagnostic'],
            'concrete_playback_test': test_src, 'native_replay': None, 'also_failed': f.get('also_failed', []),
